@@ -232,6 +232,9 @@ pub fn gen_c16_sync(out: &mut Out, rng: &mut Rng, thorough: bool) {
         let good = |tid: u16| format!("d{}", hex_raw(&frame(kind, tid, unit, &[0x03, 0x02, 0x12, 0x34])));
         monitor_line(out, &format!("sync {kind} {} to=1500 | call RHR:0001:0001 r=- | call RHR:0001:0001 r={}", hex8(unit), good(1)));
         monitor_line(out, &format!("sync {kind} {} to=1500 | call RHR:0001:0001 r={} | call RHR:0001:0001 r={}", hex8(unit), good(0), good(1)));
+        // the timeout configured, changed and removed after connecting
+        monitor_line(out, &format!("sync {kind} {} | timeout 1500 | call RHR:0001:0001 r=- | call RHR:0001:0001 r={}", hex8(unit), good(1)));
+        monitor_line(out, &format!("sync {kind} {} to=60000 | timeout 1500 | call RHR:0001:0001 r=- | timeout - | call RHR:0001:0001 r={}", hex8(unit), good(1)));
     }
 }
 
